@@ -28,6 +28,12 @@ type BPkg struct {
 	MetaCommit string `json:"meta_commit"`
 	MetaMsg    string `json:"meta_msg"`
 	HasMeta    bool   `json:"has_meta"`
+	// Spelling: the package address is not parsed from Addr but BUILT with sourceaddrs.MakeRemoteSource
+	// (source type SrcType) from url.Parse(Spelling), a non-canonical spelling of the URL (raw space, '|',
+	// non-ASCII letter, unescaped quote). Addr is the printed (canonical) form: what the fetcher, the
+	// tracer, the manifest and the model see.
+	SrcType  string `json:"src_type,omitempty"`
+	Spelling string `json:"spelling,omitempty"`
 }
 
 type BVer struct {
@@ -82,6 +88,40 @@ type BWorld struct {
 	Regs []BReg `json:"regs"`
 	Srcs []BSrc `json:"srcs"`
 	Deps []BDep `json:"deps"`
+	// SharedDiags: the scripted finders keep ONE pair of SourceRange objects (Subject, Context) per
+	// (finder, file name) and hand the same pointers out with every diagnostic about that file name,
+	// whatever package is being analysed (a finder that reuses its diagnostics).
+	SharedDiags bool `json:"shared_diags,omitempty"`
+}
+
+// oddRemote builds a remote source address from parts, the way a caller that derives addresses does.
+func oddRemote(srcType, spelling, sub string) (sourceaddrs.RemoteSource, error) {
+	u, err := url.Parse(spelling)
+	if err != nil {
+		return sourceaddrs.RemoteSource{}, err
+	}
+	if u.Host != "example.com" {
+		return sourceaddrs.RemoteSource{}, fmt.Errorf("spelled package URL %q is not on example.com", spelling)
+	}
+	return sourceaddrs.MakeRemoteSource(srcType, u, sub)
+}
+
+// remote: the address value the lane uses for sub-path sub of world package pkg, wherever it adds,
+// reports (finders, registry answers) or looks up a remote source: built from parts for packages that
+// carry a spelling, parsed from the printed form otherwise.
+func (w *BWorld) remote(pkg, sub string) sourceaddrs.RemoteSource {
+	if w != nil {
+		for i := range w.Pkgs {
+			if p := &w.Pkgs[i]; p.Addr == pkg && p.Spelling != "" {
+				s, err := oddRemote(p.SrcType, p.Spelling, sub)
+				if err != nil {
+					panic(fmt.Sprintf("harness: bad spelled package %q (%s): %v", p.Spelling, p.SrcType, err))
+				}
+				return s
+			}
+		}
+	}
+	return mustRemote(pkg, sub)
 }
 
 // allowedSet builds the versions.Set for the DSL: all | released | only:V | atleast:V | olderthan:V | range:A:B | sel:A+B
@@ -261,11 +301,41 @@ type bEnv struct {
 	yield    bool
 	noDiagCb bool // the tracer has no Diagnostics callback
 	boundary func(when string) // called at every callback boundary (C12 crash points)
+	// finder diagnostics: what each finder call returned (with the package under analysis) and what the
+	// tracer's Diagnostics callback was given, for the C12 oracle of the builder lane
+	finderDiags []finderDiagRec
+	tracedDiags []deliveredDiag
+}
+
+type finderDiagRec struct {
+	pkg, summary, file string
+	isErr              bool
+	finder             int
+}
+
+type deliveredDiag struct {
+	summary, subject, context string
+	hasSubject, hasContext    bool
+	isErr                     bool
+}
+
+func deliveredOf(d sourcebundle.Diagnostic) deliveredDiag {
+	r := deliveredDiag{summary: d.Description().Summary, isErr: d.Severity() == sourcebundle.DiagError}
+	src := d.Source()
+	if src.Subject != nil {
+		r.hasSubject, r.subject = true, src.Subject.Filename
+	}
+	if src.Context != nil {
+		r.hasContext, r.context = true, src.Context.Filename
+	}
+	return r
 }
 
 type scriptFinder struct {
 	id  int
 	env *bEnv
+	// kept range objects per file name (worlds with SharedDiags)
+	ranges map[string]*[2]sourcebundle.SourceRange
 }
 
 func newEnv(w *BWorld) *bEnv {
@@ -412,7 +482,7 @@ func (e *bEnv) ModulePackageSourceAddr(ctx context.Context, pkgAddr regaddr.Modu
 			if s.Err {
 				return resp, fmt.Errorf("scripted source failure")
 			}
-			resp.SourceAddr = mustRemote(s.Pkg, s.Sub)
+			resp.SourceAddr = e.w.remote(s.Pkg, s.Sub)
 			return resp, nil
 		}
 	}
@@ -454,6 +524,42 @@ func (d scriptDiag) Source() sourcebundle.DiagSource {
 }
 func (d scriptDiag) ExtraInfo() interface{} { return nil }
 
+// keptDiag: a diagnostic whose Source() hands out pointers to range objects the finder keeps
+type keptDiag struct {
+	sev     sourcebundle.DiagSeverity
+	summary string
+	rngs    *[2]sourcebundle.SourceRange
+}
+
+func (d keptDiag) Severity() sourcebundle.DiagSeverity { return d.sev }
+func (d keptDiag) Description() sourcebundle.DiagDescription {
+	return sourcebundle.DiagDescription{Summary: d.summary, Detail: "scripted"}
+}
+func (d keptDiag) Source() sourcebundle.DiagSource {
+	return sourcebundle.DiagSource{Subject: &d.rngs[0], Context: &d.rngs[1]}
+}
+func (d keptDiag) ExtraInfo() interface{} { return nil }
+
+// diag: the diagnostic a finder returns for a w/e declaration while analysing pkg
+func (f *scriptFinder) diag(pkg string, sev sourcebundle.DiagSeverity, summary, file string) sourcebundle.Diagnostic {
+	e := f.env
+	e.mu.Lock()
+	defer e.mu.Unlock()
+	e.finderDiags = append(e.finderDiags, finderDiagRec{pkg: pkg, summary: summary, file: file, isErr: sev == sourcebundle.DiagError, finder: f.id})
+	if !e.w.SharedDiags {
+		return scriptDiag{sev: sev, summary: summary, file: file}
+	}
+	if f.ranges == nil {
+		f.ranges = map[string]*[2]sourcebundle.SourceRange{}
+	}
+	rg, ok := f.ranges[file]
+	if !ok {
+		rg = &[2]sourcebundle.SourceRange{{Filename: file}, {Filename: file}}
+		f.ranges[file] = rg
+	}
+	return keptDiag{sev: sev, summary: summary, rngs: rg}
+}
+
 func (f *scriptFinder) FindDependencies(fsys fs.FS, subPath string, deps *sourcebundle.Dependencies) sourcebundle.Diagnostics {
 	e := f.env
 	b, err := fs.ReadFile(fsys, "content.id")
@@ -476,7 +582,7 @@ func (f *scriptFinder) FindDependencies(fsys fs.FS, subPath string, deps *source
 			for _, dc := range d.Decls {
 				switch dc.Kind {
 				case "r":
-					deps.AddRemoteSource(mustRemote(dc.Pkg, dc.Sub), e.finders[dc.Finder])
+					deps.AddRemoteSource(e.w.remote(dc.Pkg, dc.Sub), e.finders[dc.Finder])
 				case "g":
 					deps.AddRegistrySource(mustRegistry(dc.Pkg, dc.Sub), allowedSet(dc.Allowed), e.finders[dc.Finder])
 				case "l":
@@ -486,9 +592,9 @@ func (f *scriptFinder) FindDependencies(fsys fs.FS, subPath string, deps *source
 					}
 					deps.AddLocalSource(ls, e.finders[dc.Finder])
 				case "w":
-					diags = append(diags, scriptDiag{sev: sourcebundle.DiagWarning, summary: dc.Summary, file: dc.File})
+					diags = append(diags, f.diag(pkg, sourcebundle.DiagWarning, dc.Summary, dc.File))
 				case "e":
-					diags = append(diags, scriptDiag{sev: sourcebundle.DiagError, summary: dc.Summary, file: dc.File})
+					diags = append(diags, f.diag(pkg, sourcebundle.DiagError, dc.Summary, dc.File))
 				}
 			}
 			break
@@ -536,7 +642,14 @@ func (e *bEnv) tracer() *sourcebundle.BuildTracer {
 			e.mu.Unlock()
 			e.ev("fa:" + X(p.String()))
 		},
-		Diagnostics: func(ctx context.Context, diags sourcebundle.Diagnostics) { e.ev(fmt.Sprintf("td:%d", len(diags))) },
+		Diagnostics: func(ctx context.Context, diags sourcebundle.Diagnostics) {
+			e.ev(fmt.Sprintf("td:%d", len(diags)))
+			e.mu.Lock()
+			for _, d := range diags {
+				e.tracedDiags = append(e.tracedDiags, deliveredOf(d))
+			}
+			e.mu.Unlock()
+		},
 	}
 	if e.noDiagCb {
 		t.Diagnostics = nil
@@ -639,7 +752,7 @@ func runBuild(w *BWorld, ops []BOp, target string, env *bEnv) *bRun {
 				var ds sourcebundle.Diagnostics
 				switch op.Kind {
 				case "ar":
-					ds = b.AddRemoteSource(ctx, mustRemote(op.Pkg, op.Sub), env.finders[op.Finder])
+					ds = b.AddRemoteSource(ctx, w.remote(op.Pkg, op.Sub), env.finders[op.Finder])
 				case "ag":
 					ds = b.AddRegistrySource(ctx, mustRegistry(op.Pkg, op.Sub), allowedSet(op.Allowed), env.finders[op.Finder])
 				case "af":
